@@ -43,6 +43,7 @@ class BinPackH(Harness):
     RESET_INV = False
     MULTI_DISCRETE = True
     REWARD_VARIANTS = [{}, {"reward_fn": _sparse()}]
+    REF_REWARD_VARIANTS = True   # ref_step follows the configured reward function (C09 runs the variants too)
     OBS_VARIANTS = [{}, {"normalize_dimensions": False}, {"obs_num_ems": "all"}]   # "all": obs_num_ems == max_num_ems
 
     def __init__(self, cfg, **over):
